@@ -69,7 +69,10 @@ CLAIMED = {
           "KING, R0, R1; independence from the monomorphic entries; swap symmetry; homogeneity of degree 0/1.",
           "Rocq proof over Qc (mirror-symmetric weights, Fubini, field) + metamorphic runs of the binary", "7/C14"),
  "C19": C("Proof: flat<->multi-index bijection, row-major enumeration, get/get_axis None-iff, the view odometer for every call "
-          "history (fusedness, len), iter_axis, sum = adding views - all shapes with positive lengths.",
+          "history (fusedness, len), iter_axis, sum = adding views - all shapes with positive lengths; "
+          "and the 64-bit layer (Word.v / WordP.v): Array::new's checked element count never accepts a wrapped product, "
+          "Shape::strides never overflows, and on every accepted array the usize computation of the flat index never overflows and is "
+          "the unbounded model's (refinement).",
           "Rocq proof (induction on shapes, odometer invariant) + exhaustive small-shape differential", "7/C19",
           "Zero-length axes are outside the theorems (positive_shape)."),
 }
